@@ -42,6 +42,13 @@ pub const MODULES: &[ModuleCfg] = &[
         may_use: &["LangId", "ExtType", "UExt", "TExt", "ExtMap", "Locale"],
         prelude: false,
     },
+    // the proc macros: `Bytes → MacroOut T` (the expansion language `UL.MTok` and its evaluators are `Model/MacroSem.lean`)
+    ModuleCfg {
+        name: "SrcMacros",
+        imports: &["UnicLocale.Gen.SrcParse", "UnicLocale.Gen.SrcLikely", "UnicLocale.Model.MacroSem"],
+        may_use: &["LangId", "ExtType", "UExt", "TExt", "ExtMap", "Locale"],
+        prelude: false,
+    },
 ];
 
 pub struct Target {
@@ -75,6 +82,8 @@ const LIKELY: &str = "unic-langid-impl/src/likelysubtags/mod.rs";
 const LIPARSER: &str = "unic-langid-impl/src/parser/mod.rs";
 const LOCPARSER: &str = "unic-locale-impl/src/parser/mod.rs";
 const LOCLIB: &str = "unic-locale-impl/src/lib.rs";
+const LIMACROS: &str = "unic-langid-macros-impl/src/lib.rs";
+const LOCMACROS: &str = "unic-locale-macros-impl/src/lib.rs";
 
 macro_rules! t {
     ($lean:expr, $module:expr, $file:expr, $imp:expr, $func:expr, $ty:expr, $model:expr, $gen:expr, $group:expr) => {
@@ -223,6 +232,13 @@ pub const TARGETS: &[Target] = &[
     t!("LangId.minimize", "SrcLikely", LIB, Some("LanguageIdentifier"), "minimize", "Tables → LangId → Res (LangId × Bool)", "UL.LangId.minimize", &[], "Likely"),
     t!("LangId.direction", "SrcLikely", LIB, Some("LanguageIdentifier"), "character_direction", "Tables → Layout → LangId → Res LangId.Dir", "(UL.LangId.direction true)", &[], "Likely"),
     t!("LangId.directionNoLikely", "SrcLikely", LIB, Some("LanguageIdentifier"), "character_direction", "Layout → LangId → Res LangId.Dir", "(fun L x => UL.LangId.direction false ⟨#[], #[], #[], #[], #[], #[]⟩ L x)", &[], "Likely"),
+    // ---- the proc macros (`tr_macro.rs`): parse at build time, emit an expression, rustc evaluates it at the invocation
+    t!("Macros.lang", "SrcMacros", LIMACROS, None, "lang", "Bytes → MacroOut (Option Bytes)", "UL.Macros.lang", &[], "Macros"),
+    t!("Macros.script", "SrcMacros", LIMACROS, None, "script", "Bytes → MacroOut Bytes", "UL.Macros.script", &[], "Macros"),
+    t!("Macros.region", "SrcMacros", LIMACROS, None, "region", "Bytes → MacroOut Bytes", "UL.Macros.region", &[], "Macros"),
+    t!("Macros.variant", "SrcMacros", LIMACROS, None, "variant_fn", "Bytes → MacroOut Bytes", "UL.Macros.variant", &[], "Macros"),
+    t!("Macros.langid", "SrcMacros", LIMACROS, None, "langid", "Bytes → MacroOut LangId", "UL.Macros.langid", &[], "Macros"),
+    t!("Macros.locale", "SrcMacros", LOCMACROS, None, "locale", "Bytes → MacroOut Locale", "UL.Macros.locale", &[], "Macros"),
 ];
 
 /// Cargo features that are on when a target is translated (default: `likelysubtags` on, as in the harness build).
@@ -248,6 +264,8 @@ pub const FILES: &[&str] = &[
     LIPARSER,
     LOCPARSER,
     LOCLIB,
+    LIMACROS,
+    LOCMACROS,
     "unic-langid-impl/src/errors.rs",
     "unic-locale-impl/src/errors.rs",
     "unic-langid-impl/src/parser/errors.rs",
